@@ -10,6 +10,7 @@ SPEC = dict(
         "add_sem", "sub_sem", "mul_sem", "neg_sem", "pow_sem", "mem_union_vars",
         "fromDict_sem", "eval_sem", "coeff_sem",
         "eq_sound", "eq_complete_same_vars", "eq_iff_sem_same_vars", "eq_const_any_vars",
+        "sorted_ext", "merge_comm", "add_comm_eq", "mul_comm_eq",
         "eq_incomplete_witness", "eq_full_fails", "eqOrig_unsound_witness",
         "mint_add_sem", "mint_sub_sem", "mint_mul_sem", "mint_neg_sem", "mint_pow_sem",
         "mint_eval_sem", "mint_fromDict_sem", "mint_eq_sound",
